@@ -812,10 +812,10 @@ open AsamCmp.Src AsamCmp.SrcGen AsamCmp.SrcDec
 /-- end to end, source level: the TRANSLATED `Decoder::decode` (with the translated TECMP decoder plugged in), on every
     buffer of at least 8 bytes at a non-null address and every reachable pending table, is defined and every object it
     returns, read as a packet of the model, satisfies C03 (D): class validator accepted, no accessor reads outside, every view
-    in range or (null, 0).  Hypotheses: those of `SrcDec.decode_total_src` (table invariant, sizes below 2^31 / 2^63, fuel). -/
+    in range or (null, 0).  Hypotheses: those of `SrcDec.decode_total_src` (table invariant, memory below 2^63 bytes, fuel). -/
 theorem decode_src_accessors_inbounds (t : Table) (pre b post : Bytes) (fuel : Nat)
     (hT : C17b.TableOk t) (hR : TableReg t) (hpre : 0 < pre.length) (h8 : 8 ≤ b.length)
-    (hlen : b.length < 2 ^ 31) (hmem : (pre ++ b ++ post).length < 2 ^ 63) (hf : b.length ≤ fuel) :
+    (hmem : (pre ++ b ++ post).length < 2 ^ 63) (hf : b.length ≤ fuel) :
     ∃ t' outs, Decoder_decode_obj fuel (tblSt t) (pre ++ b ++ post) pre.length b.length (SrcTec.tecmpExt fuel) =
         some (tblSt t', outs) ∧
       ∀ o ∈ outs, ∀ pl, (Sum.elim toPacket SrcTec.tAbs o).payload = some pl → pl.isValid = true →
@@ -823,7 +823,7 @@ theorem decode_src_accessors_inbounds (t : Table) (pre b post : Bytes) (fuel : N
           v pl.data = true ∧
           ∃ vs, a pl.data = some vs ∧ ∀ x ∈ vs,
             (∃ o, x.off = some o ∧ o + x.len ≤ pl.data.length) ∨ (x.off = none ∧ x.len = 0) := by
-  obtain ⟨t', outs, h1, _, _, h4⟩ := decode_total_src t pre b post fuel hT hR hpre h8 hlen hmem hf
+  obtain ⟨t', outs, h1, _, _, h4⟩ := decode_total_src t pre b post fuel hT hR hpre h8 hmem hf
   refine ⟨t', outs, h1, ?_⟩
   intro o ho
   have hm : Sum.elim toPacket SrcTec.tAbs o ∈ (decode t.abs (some b)).2 := by
@@ -1135,7 +1135,7 @@ section SrcEx
 open AsamCmp.Src AsamCmp.SrcGen AsamCmp.SrcTie
 /-- `decode_src_accessors_inbounds`: hypotheses hold for the Ethernet frame one byte into memory, empty table -/
 example := decode_src_accessors_inbounds [] [9] exFrameEth [] 64 SrcDec.tableOk_nil SrcDec.tableReg_nil
-  (by decide) (by decide) (by decide) (by decide) (by decide)
+  (by decide) (by decide) (by decide) (by decide)
 /-- source level on a literal: the capture-module example one byte into a memory with two bytes behind it -/
 example : rawCm ([9] ++ exCm ++ [7, 7]) 1 47 0 = some [(29, 1), (33, 0), (35, 2), (41, 1), (45, 3)] ∧
     CaptureModulePayload_getVendorDataStringView ([9] ++ exCm ++ [7, 7]) 1 47 0 = some (45, 3) ∧
